@@ -66,9 +66,11 @@ class SmiV2Parser(AbstractParser):
         debug.logger & debug.flagParser and debug.logger(
             'source MIB size is %s characters, first 50 characters are "%s..."' % (len(data), data[:50]))
 
-        ast = self.parser.parse(data, lexer=self.lexer.lexer)
+        try:
+            ast = self.parser.parse(data, lexer=self.lexer.lexer)
 
-        self.reset()
+        finally:
+            self.reset()
 
         if ast and ast[0] == 'mibFile' and ast[1]:  # mibfile is not empty
             return ast[1]
